@@ -173,6 +173,46 @@ def _weights(ck: Checker, prog: Program, cls):
         ck.violation("C11.R1", fq, "return", "the weight list is not returned as built", loc=m.loc())
 
 
+def _column_normal_form(v):
+    """Two ways of gathering column j of the accepted rows of all azimuths are the same vector:
+    flatten([rows(h)[:, j].tolist() for h in hvsrs])  and  concatenate([rows(h) for h in hvsrs], axis=0)[:, j]."""
+    gi, comp, gen = sp.Function("getitem"), sp.Function("comp"), sp.Function("gen")
+    COL = sp.Function("column_of_stack")
+    NONE = sp.Symbol("None")
+    ALL = sp.Function("slice")(NONE, NONE, NONE)
+
+    def is_a(e):
+        if getattr(getattr(e, "func", None), "__name__", "") != "_flatten_list" or len(e.args) != 1:
+            return False
+        c = e.args[0]
+        if getattr(c, "func", None) != comp or len(c.args) != 2:
+            return False
+        elt = c.args[0]
+        if getattr(getattr(elt, "func", None), "__name__", "") == "tolist":
+            elt = elt.args[0]
+        return getattr(elt, "func", None) == gi and getattr(elt.args[1], "func", None) == sp.Function("idx") and elt.args[1].args[0] == ALL
+
+    def fix_a(e):
+        c = e.args[0]
+        elt = c.args[0]
+        if getattr(getattr(elt, "func", None), "__name__", "") == "tolist":
+            elt = elt.args[0]
+        return COL(comp(elt.args[0], c.args[1]), elt.args[1].args[1])
+
+    def is_b(e):
+        if getattr(e, "func", None) != gi or getattr(e.args[1], "func", None) != sp.Function("idx") or e.args[1].args[0] != ALL:
+            return False
+        b = e.args[0]
+        return getattr(getattr(b, "func", None), "__name__", "") in ("concatenate", "vstack", "row_stack") and b.args and getattr(b.args[0], "func", None) == comp \
+            and (len(b.args) == 1 or b.args[1] == 0)
+
+    def fix_b(e):
+        return COL(e.args[0].args[0], e.args[1].args[1])
+    v = v.replace(is_a, fix_a)
+    v = v.replace(is_b, fix_b)
+    return v
+
+
 def _curves(ck: Checker, prog: Program, cls):
     spec = {"mean_curve": ("_nanmean_weighted(distribution=distribution, values=np.array(_flatten_list("
                            "[hvsr.amplitude[hvsr.valid_window_boolean_mask][:, _idx].tolist() for hvsr in self.hvsrs])), "
@@ -214,8 +254,8 @@ def _curves(ck: Checker, prog: Program, cls):
                 or any(isinstance(x, (ast.Break, ast.Continue, ast.If)) for x in ast.walk(lp)):
             ck.violation("C11.R2", fq, norm_key(lp), "the loop does not fill one value per frequency unconditionally", loc=m.loc(lp))
             continue
-        got = TL.tr(stores[0].value)
-        want = S.expect(prog, m, want_src, cls, env={"_idx": sp.Symbol("_idx", real=True)})
+        got = _column_normal_form(TL.tr(stores[0].value))
+        want = _column_normal_form(S.expect(prog, m, want_src, cls, env={"_idx": sp.Symbol("_idx", real=True)}))
         if equal(got, want):
             ck.ok("C11.R2", fq, norm_key(stores[0], 110), detail="weighted estimator of the flattened accepted rows, per frequency")
         else:
